@@ -503,4 +503,79 @@ Section SimpleCleaning.
       cbn [take_fields] in T. destruct (split_first d l []) as [field after].
       destruct (negb (sc_filter field)); [discriminate|]. destruct after as [r|]; try discriminate. eauto.
   Qed.
+  (* ---- the per-call variables really are per call: nothing a call leaves behind reaches the next one ---- *)
+  Lemma sc_call_init_fresh carried : sc_call_init carried = sc_init.
+  Proof. reflexivity. Qed.   (* the four regenerated *_fresh_each_call flags are all true *)
+
+  Notation sc_filter_obj := (sc_filter_obj script_of is_punct is_uspace script_common script_inherited too_common little_punct script_low o).
+
+  Theorem sc_filter_obj_decision carried l : fst (sc_filter_obj carried l) = sc_filter l.
+  Proof.
+    unfold FiltersDefs.sc_filter_obj, FiltersDefs.sc_filter. rewrite sc_call_init_fresh.
+    destruct (sc_loop (length l) sc_init l); reflexivity.
+  Qed.
+
+  Lemma take_fields_obj_fst d : forall fuel n rest c,
+    fst (take_fields_obj script_of is_punct is_uspace script_common script_inherited too_common little_punct script_low o fuel n d rest c) =
+    take_fields script_of is_punct is_uspace script_common script_inherited too_common little_punct script_low o fuel n d rest.
+  Proof.
+    induction fuel as [|fuel IH]; intros n rest c; [reflexivity|]. cbn [take_fields_obj take_fields].
+    destruct n as [[|k]|]; try reflexivity;
+      destruct (split_first d rest []) as [field after];
+      pose proof (sc_filter_obj_decision c field) as Hd; destruct (sc_filter_obj c field) as [ok c']; cbn [fst] in Hd; rewrite <- Hd;
+      destruct ok; cbn [negb]; try reflexivity; destruct after; try reflexivity; apply IH.
+  Qed.
+
+  Theorem individual_fields_obj_fst d : forall ranges index rest c,
+    fst (individual_fields_obj script_of is_punct is_uspace script_common script_inherited too_common little_punct script_low o ranges index d rest c) =
+    individual_fields script_of is_punct is_uspace script_common script_inherited too_common little_punct script_low o ranges index d rest.
+  Proof.
+    induction ranges as [|[b e] more IH]; intros index rest c; [reflexivity|]. cbn [individual_fields_obj individual_fields].
+    destruct (skip_fields (b - index) d rest) as [rest1|]; [|reflexivity].
+    pose proof (take_fields_obj_fst d (S (S (length rest1))) (match e with Some e' => Some (e' - Nat.max index b)%nat | None => None end) rest1 c) as Ht.
+    destruct (take_fields_obj _ _ _ _ _ _ _ _ _ _ _ _ rest1 c) as [[r|rest2] c']; cbn [fst] in Ht; rewrite <- Ht; [reflexivity|apply IH].
+  Qed.
 End SimpleCleaning.
+
+(* ---- the tools as loops: the state carried across iterations never influences the decision ---- *)
+Section LoopIsFilter.
+  Variable S : Type.
+  Variable pass : S -> line -> bool * S.
+  Variable p : line -> bool.
+  Hypothesis Hindep : forall s l, fst (pass s l) = p l.     (* whatever the object carries, the decision is p of the line *)
+
+  Lemma loop_fold_spec : forall recs st,
+    l_out (fold_left (loop_step S pass) recs st) = l_out st ++ filter p recs /\
+    l_input (fold_left (loop_step S pass) recs st) = (l_input st + N.of_nat (length recs))%N /\
+    l_output (fold_left (loop_step S pass) recs st) = (l_output st + N.of_nat (length (filter p recs)))%N.
+  Proof.
+    induction recs as [|r recs IH]; intros st.
+    - cbn [fold_left filter length]. rewrite app_nil_r. repeat split; lia.
+    - cbn [fold_left filter]. destruct (IH (loop_step S pass st r)) as (A & B & C). rewrite A, B, C.
+      unfold loop_step. cbn [l_obj l_line l_input l_output l_out].
+      pose proof (Hindep (l_obj S st) r) as Hd. destruct (pass (l_obj S st) r) as [keep obj']. cbn [fst] in Hd. rewrite <- Hd.
+      destruct keep; cbn [l_out l_input l_output length]; repeat split; try lia.
+      rewrite <- app_assoc. reflexivity.
+  Qed.
+
+  Theorem loop_is_filter obj0 recs :
+    l_out (run_loop S pass obj0 recs) = filter p recs /\
+    l_input (run_loop S pass obj0 recs) = N.of_nat (length recs) /\
+    l_output (run_loop S pass obj0 recs) = N.of_nat (length (filter p recs)).
+  Proof. unfold run_loop. destruct (loop_fold_spec recs (mkLoop S obj0 [] 0%N 0%N [])) as (A & B & C). rewrite A, B, C. cbn. repeat split; lia. Qed.
+End LoopIsFilter.
+
+Theorem remove_long_lines_loop_spec limit recs : remove_long_lines_loop limit recs = remove_long_lines limit recs.
+Proof. unfold remove_long_lines_loop. apply (loop_is_filter unit _ (long_keep limit)). reflexivity. Qed.
+
+Theorem remove_invalid_utf8_loop_spec recs : remove_invalid_utf8_loop recs = remove_invalid_utf8 recs.
+Proof. unfold remove_invalid_utf8_loop. apply (loop_is_filter unit _ wf_utf8). reflexivity. Qed.
+
+Theorem simple_cleaning_loop_spec script_of is_punct is_uspace sc si too_common little_punct script_low o ranges d recs :
+  simple_cleaning_loop script_of is_punct is_uspace sc si too_common little_punct script_low o ranges d recs =
+  simple_cleaning script_of is_punct is_uspace sc si too_common little_punct script_low o ranges d recs.
+Proof.
+  unfold simple_cleaning_loop, simple_cleaning.
+  apply (loop_is_filter sc_state _ (sc_line_keep script_of is_punct is_uspace sc si too_common little_punct script_low o ranges d)).
+  intros c l. unfold sc_line_keep. apply individual_fields_obj_fst.
+Qed.
